@@ -10,7 +10,11 @@ META = dict(
                "support (finite sweep by vm_compute lifted with forallb_forall, sizes > 27 by case analysis); the committed answer of every "
                "class for every payload and state (unbounded); the 40 s response timeout as an invariant over event histories of any length. "
                "The statement 'the specification monitor accepts every model trace' is refuted by three witnesses (LL_PHY_REQ without timeout, "
-               "second LL_VERSION_IND, LLID 1 fragment blocks reception) which are known findings; its positive part is tested on every run, not proved. "
+               "second LL_VERSION_IND, LLID 1 fragment blocks reception) which are known findings; its positive part IS proved (C27_monitor_accepts_partial, simulation proof coq/LL/LLProofsC27Sim.v): the monitor "
+               "accepts every model trace of any length inside the executable environment env27 = no phy_update_request(), no "
+               "remote_versions_request(), no LLID 1 PDU with payload, no model crash, synchronous connection parameter configuration; also proved: "
+               "the range properties of the answer to LL_CONNECTION_PARAM_REQ (C27_connection_parameter_answer). Not proved: the asynchronous "
+               "connection parameter variant inside that theorem (tested every run). "
                "Instant based procedures (C21) and encryption PDUs (C28) are outside this property's monitor.",
     design_ref="DESIGN.md section 6 C27, docs/C27.md, docs/LL_MODEL.md",
     technique="Coq state-machine model + finite table sweep + invariant proof; exhaustive (opcode, size) dispatch table and timeout histories "
